@@ -117,6 +117,7 @@ class State:
         self.nuid = 0
         self.ext = {}  # analysis-specific data (copied shallowly)
         self.steps = 0
+        self.consulted = set()  # decision keys looked up (answered from facts or freshly decided)
 
     def clone(self):
         s = State()
@@ -128,10 +129,12 @@ class State:
         s.nuid = self.nuid
         s.ext = dict(self.ext)
         s.steps = self.steps
+        s.consulted = set(self.consulted)
         return s
 
     def choose(self, key, options):
         """Return the decided answer for `key`, or split the path."""
+        self.consulted.add(key)
         if key in self.facts:
             return self.facts[key]
         if len(options) == 1:
@@ -917,7 +920,10 @@ class Machine:
         fr.bb, fr.si = target, 0
         if target not in self.loop_heads(fr.body):
             return None
-        if self.world.loop_policy(fr.body, target) != "widen":
+        pol = self.world.loop_policy(fr.body, target)
+        if pol == "custom":
+            return self.world.loop_arrival(self, st, fr, target)
+        if pol != "widen":
             return None
         loops = st.ext.get("loops")
         loops = dict(loops) if loops else {}
